@@ -187,6 +187,80 @@ impl UserFunction for ZstB {
     }
 }
 
+/// A user function that evaluates a (shared) ruleset itself, inline in the calling task, before it answers: the number of
+/// outcomes of that inner evaluation that are values. Calls are logged like a probe's.
+pub struct NestingFunction {
+    pub name: &'static str,
+    pub inner: Arc<RuleSet>,
+    pub log: Log,
+    pub cacheable: bool,
+}
+
+#[async_trait]
+impl UserFunction for NestingFunction {
+    async fn call(&self, param: Value) -> FunctionResult {
+        self.log.lock().unwrap().push((self.name.to_string(), arg_key(&param)));
+        let outcomes = self.inner.evaluate_value(&param).await?;
+        Ok(Value::Int(outcomes.iter().filter(|o| o.value.is_ok()).count() as i128))
+    }
+    fn name(&self) -> &'static str {
+        self.name
+    }
+    fn cacheable(&self) -> bool {
+        self.cacheable
+    }
+}
+
+/// One evaluation whose user function `nest` evaluates another ruleset (with its own calls of the same probe functions)
+/// inline, between repeated cacheable calls of the outer evaluation: each evaluation keeps its own results, so the outer
+/// one still invokes `fa(1)` once, and the inner one invokes its own `fa(1)` once per inner evaluation.
+/// Returns (outer outcomes rendered, invocation log).
+pub fn nested_evaluation(suspend: u32, tokio_yield: bool, nest_cacheable: bool) -> (RuleSet, Log) {
+    let log: Log = Arc::new(Mutex::new(vec![]));
+    let counts = Arc::new(Mutex::new(BTreeMap::new()));
+    let probe = |name: &'static str| Probe { name, spec: FnSpec { cacheable: true, fail_on: vec![], fail_first: 0, uncacheable_after: 0 }, suspend, log: log.clone(), counts: counts.clone(), tokio_yield };
+    let call = |f: &str, k: i128| Expr::func(f, Expr::value(k));
+    let inner = ruleset()
+        .with_rule(Rule::new("inner-a", BTreeMap::new(), Expr::Vec(vec![call("fa", 1), call("fa", 1), call("fb", 2)])))
+        .expect("rule")
+        .with_rule(Rule::new("inner-b", BTreeMap::new(), call("fa", 1)))
+        .expect("rule")
+        .with_function(probe("fa"))
+        .expect("fa")
+        .with_function(probe("fb"))
+        .expect("fb")
+        .build();
+    let nest = NestingFunction { name: "nest", inner: Arc::new(inner), log: log.clone(), cacheable: nest_cacheable };
+    let outer = ruleset()
+        .with_rule(Rule::new("before", BTreeMap::new(), Expr::Vec(vec![call("fa", 1), call("fb", 2)])))
+        .expect("rule")
+        .with_rule(Rule::new("nesting", BTreeMap::new(), Expr::Vec(vec![call("nest", 5), call("fa", 1), call("nest", 5)])))
+        .expect("rule")
+        .with_rule(Rule::new("after", BTreeMap::new(), Expr::Vec(vec![call("fa", 1), call("fb", 2), call("fa", 3)])))
+        .expect("rule")
+        .with_function(probe("fa"))
+        .expect("fa")
+        .with_function(probe("fb"))
+        .expect("fb")
+        .with_function(nest)
+        .expect("nest")
+        .build();
+    (outer, log)
+}
+
+/// What `nested_evaluation` must log: the outer evaluation invokes fa(1), fb(2), nest(5) (once or twice), fa(3) once each;
+/// every inner evaluation invokes fa(1) and fb(2) once each.
+pub fn nested_expected(nest_cacheable: bool) -> BTreeMap<(String, String), usize> {
+    let nests = if nest_cacheable { 1 } else { 2 };
+    let k = |f: &str, v: i128| (f.to_string(), arg_key(&Value::Int(v)));
+    let mut m = BTreeMap::new();
+    m.insert(k("fa", 1), 1 + nests);
+    m.insert(k("fb", 2), 1 + nests);
+    m.insert(k("fa", 3), 1);
+    m.insert(k("nest", 5), nests);
+    m
+}
+
 thread_local! {
     static EARLIER_SYMBOLS: std::cell::RefCell<Vec<(u8, String, Value)>> = const { std::cell::RefCell::new(vec![]) };
 }
@@ -225,6 +299,21 @@ pub fn build(spec: &SetSpec, tokio_yield: bool) -> Built {
     let log: Log = Arc::new(Mutex::new(vec![]));
     let counts = Arc::new(Mutex::new(BTreeMap::new()));
     let mut b = ruleset();
+    // definitions that are replaced again after the rules and functions have been added (set by `with_earlier_symbols`; a
+    // builder that looks at its symbols when a rule arrives sees these): way 0 = with_symbol, 1 = with_symbols
+    // of a table built by insert, 2 = with_symbols of a table built by From
+    let earlier = EARLIER_SYMBOLS.try_with(|e| e.borrow().clone()).unwrap_or_default();
+    for (way, k, v) in &earlier {
+        b = match way % 3 {
+            0 => b.with_symbol(k, v.clone()),
+            1 => {
+                let mut t = Symbols::default();
+                t.insert(k.clone(), v.clone());
+                b.with_symbols(t).expect("with_symbols")
+            }
+            _ => b.with_symbols(Symbols::from(vec![(k.clone(), v.clone())])).expect("with_symbols"),
+        };
+    }
     // every builder entry point is used: the first rule through with_rule, the next two through one with_rules batch,
     // the rest one by one (so with_rules is called on a builder that already holds rules)
     let mk = |name: &String, expr: &Expr| Rule::new(name.clone(), BTreeMap::new(), expr.clone());
@@ -268,20 +357,6 @@ pub fn build(spec: &SetSpec, tokio_yield: bool) -> Built {
             b.with_function(p)
         }
         .expect("harness generates valid function names");
-    }
-    // definitions that are replaced again below (set by `with_earlier_symbols`): way 0 = with_symbol, 1 = with_symbols
-    // of a table built by insert, 2 = with_symbols of a table built by From
-    let earlier = EARLIER_SYMBOLS.try_with(|e| e.borrow().clone()).unwrap_or_default();
-    for (way, k, v) in &earlier {
-        b = match way % 3 {
-            0 => b.with_symbol(k, v.clone()),
-            1 => {
-                let mut t = Symbols::default();
-                t.insert(k.clone(), v.clone());
-                b.with_symbols(t).expect("with_symbols")
-            }
-            _ => b.with_symbols(Symbols::from(vec![(k.clone(), v.clone())])).expect("with_symbols"),
-        };
     }
     let batch_last = earlier.iter().any(|(way, _, _)| *way >= 3);
     if batch_last {
